@@ -1,5 +1,129 @@
 /-
-  Props/C06.lean — property theorems for C06 (stub; to be filled in).
+  Props/C06.lean — C06: deserialization accepts exactly the JSON images of constructor-valid data.
+
+  `deserialize` (Sem/Deser.lean) mirrors Deserializer(cls).deserialize without mappers: the
+  document is pre-processed field by field and the result is handed to the constructor.
+  Proved for every class, every document (any nesting) and every flag combination:
+  * `deserialize_goes_through_constructor` / `deserialize_sound` — whatever is returned was built by
+    the constructor from some keyword arguments, hence is well-formed (C01);
+  * `deserialize_err_class` — every rejection is a TypeError / ValueError (or their common
+    subclass), whatever the corruption (by mutual structural induction over the declaration);
+  * `non_object_rejected` — a non-object top-level document is a TypeError;
+  * `extra_keys_policy` — keys that are not fields are passed on exactly when keep_undefined is set
+    and the class allows additional properties (or the ignore flag is off, in which case the
+    constructor rejects them); `extra_keys_need_additional_properties` — they can only become
+    attributes of a class that allows additional properties.
+  The "exactly the images" direction uses the documented JSON form read backwards
+  (Spec/Lift.lean: `expectedDeser` = constructor ∘ `liftDoc`): it
+  is evaluated by the driver on every case as the oracle for the real Deserializer; its agreement
+  with `deserialize` is checked by correspondence, not proved (stated in DESIGN as the open part).
 -/
+import TypedpyModel.Lemmas.DeserErr
 namespace Typedpy.C06
+open Typedpy
+
+/-- a successful deserialization is the constructor applied to some keyword arguments -/
+theorem deserialize_goes_through_constructor (O : Oracles) (opts : DeserOpts) (cls : FieldDecl)
+    (d x : PyVal) (h : deserialize O opts cls d = .ok x) :
+    ∃ kw, construct O cls kw = .ok x := by
+  unfold deserialize at h
+  cases cls with
+  | struct c fields defaults => ?_
+  | _ => simp at h
+  simp only at h
+  split at h
+  · rename_i kvs
+    split at h
+    · cases h
+    · rename_i kw _
+      rcases bindE_eq_ok h with ⟨args, _, h2⟩
+      exact ⟨args, by simpa [construct] using h2⟩
+  · cases h
+
+/-- **C06 ⊆ C01**: every deserialized instance is well-formed -/
+theorem deserialize_sound (O : Oracles) (opts : DeserOpts) (cls : FieldDecl) (d x : PyVal)
+    (hw : wfDecl cls = true) (h : deserialize O opts cls d = .ok x) : wellFormed O cls x = true := by
+  rcases deserialize_goes_through_constructor O opts cls d x h with ⟨kw, hk⟩
+  exact C01.construct_sound O cls kw x hw hk
+
+/-- **C06**: every rejection is a TypeError or a ValueError (or InvalidStructureErr, their common
+    subclass) — for every class, document and flag setting -/
+theorem deserialize_err_class (O : Oracles) (opts : DeserOpts) (c : ClassOpts)
+    (fields : List (String × FieldDecl)) (defaults : List (String × PyVal)) (d : PyVal) (e : ErrCls)
+    (h : deserialize O opts (.struct c fields defaults) d = .error e) :
+    e = .typeErr ∨ e = .valueErr ∨ e = .both := by
+  unfold deserialize at h
+  simp only at h
+  split at h
+  · split at h
+    · cases h; exact Or.inl rfl
+    · rename_i kw _
+      cases hd : deserFields O opts c kw fields false with
+      | error e' =>
+        rw [hd] at h; simp at h; subst h
+        exact deserFields_err O opts c kw fields false e' hd
+      | ok args =>
+        rw [hd] at h; simp only [bindE_ok] at h
+        exact vConstruct_err c _ _ _ e (fun e' he => validateFields_err O c defaults _ fields e' he) h
+  · cases h; exact Or.inl rfl
+
+/-- a non-object top-level document is rejected with TypeError -/
+theorem non_object_rejected (O : Oracles) (opts : DeserOpts) (c : ClassOpts)
+    (fields : List (String × FieldDecl)) (defaults : List (String × PyVal)) (d : PyVal)
+    (hd : ∀ kvs, d ≠ .dict kvs) :
+    deserialize O opts (.struct c fields defaults) d = .error .typeErr := by
+  unfold deserialize
+  cases d <;> first | rfl | (rename_i kvs; exact absurd rfl (hd kvs))
+
+/-- which undeclared keys are handed to the constructor -/
+theorem extra_keys_policy (opts : DeserOpts) (c : ClassOpts) (names : List String)
+    (doc : List (String × PyVal)) (a : String × PyVal) :
+    a ∈ deserExtras opts c names doc ↔
+      a ∈ doc ∧ names.contains a.1 = false ∧ opts.keepUndefined = true
+        ∧ (c.addl = true ∨ opts.ignoreInvalidAddl = false) := by
+  unfold deserExtras
+  simp only [List.mem_filter, Bool.and_eq_true, Bool.not_eq_true', Bool.or_eq_true]
+  constructor
+  · rintro ⟨h1, ⟨h2, h3⟩, h4⟩; exact ⟨h1, h2, h3, h4⟩
+  · rintro ⟨h1, h2, h3, h4⟩; exact ⟨h1, ⟨h2, h3⟩, h4⟩
+
+/-- an undeclared key can only become an attribute of a class that allows additional properties:
+    for a class that does not, the constructor refuses any undeclared keyword (TypeError) -/
+theorem extra_keys_need_additional_properties (O : Oracles) (c : ClassOpts)
+    (fields : List (String × FieldDecl)) (defaults kw : List (String × PyVal)) (a : String × PyVal)
+    (hadd : c.addl = false) (ha : a ∈ kw) (hn : (fields.map (·.1)).contains a.1 = false) :
+    construct O (.struct c fields defaults) kw = .error .typeErr := by
+  have hb : bindOk c (fields.map (·.1)) kw = false := by
+    unfold bindOk
+    have : kw.any (fun a => !(fields.map (·.1)).contains a.1) = true :=
+      List.any_eq_true.mpr ⟨a, ha, by rw [hn]; rfl⟩
+    rw [hadd, this]
+    cases (!c.required.any fun r => (lookup r kw).isNone) <;> rfl
+  simp [construct, vConstruct, hb]
+
+/-! ### non-vacuity -/
+
+def exO : Oracles := { reMatch := fun _ _ => true }
+def exCls : FieldDecl :=
+  .struct { name := "A", required := ["a"], addl := false, accepts := ["A"] }
+    [("a", .seqOf .list (.enumCls "Color" ["RED", "BLUE"]) { max := some 2 }),
+     ("b", .float { min := some ⟨0, 1⟩ })] []
+
+theorem deserialize_example :
+    (match deserialize exO {} exCls (.dict [(.str "a", .list [.str "RED"]), (.str "b", .int 3)]) with
+      | .ok (.inst "A" [("a", .list [.enumv "Color" "RED"]), ("b", .float _)]) => true
+      | _ => false) = true
+    ∧ (match deserialize exO {} exCls (.dict [(.str "a", .list [.str "PINK"])]) with
+      | .error .valueErr => true | _ => false) = true
+    ∧ (match deserialize exO {} exCls (.dict [(.str "b", .int 3)]) with
+      | .error .typeErr => true | _ => false) = true
+    ∧ (match deserialize exO { keepUndefined := true, ignoreInvalidAddl := false } exCls
+          (.dict [(.str "a", .list []), (.str "zz", .int 1)]) with
+      | .error .typeErr => true | _ => false) = true
+    ∧ (match deserialize exO {} exCls (.dict [(.str "a", .list []), (.str "zz", .int 1)]) with
+      | .ok (.inst "A" [("a", .list [])]) => true | _ => false) = true
+    ∧ (match expectedDeser exO {} exCls (.dict [(.str "a", .list [.str "RED"]), (.str "b", .int 3)]) with
+      | some (.inst "A" _) => true | _ => false) = true := by
+  decide
+
 end Typedpy.C06
